@@ -237,3 +237,46 @@ Definition check_unique (inp : list A) (ks : list K) : bool :=
   && forallb (fun x => existsb (fun k => keyb x k) ks) inp.
 
 End Groups.
+
+(* ---------- movingWindow: "the inner lists contain all items that are close to each other ...
+   similarity is the absolute difference being [at most] 1".  For keys that do not decrease along the
+   list, the window of item i is every item up to i whose key is within 1 of item i's key (they form a
+   run that ends at i).  close k_i k_j is supplied by the caller (exact float comparison). ---------- *)
+Fixpoint d_windows_from {K} (close : K -> K -> bool) (seen : list (K * value)) (l : list (K * value)) : list value :=
+  match l with
+  | [] => []
+  | (k, x) :: r =>
+      let seen' := seen ++ [(k, x)] in
+      VList (map snd (filter (fun p => close k (fst p)) seen')) :: d_windows_from close seen' r
+  end.
+
+Definition d_movingWindow {K} (close : K -> K -> bool) (kl : list (K * value)) : list value :=
+  d_windows_from close [] kl.
+
+(* ---------- finite maps: a map is its set of key/value pairs; canonical form = sorted by key ---------- *)
+Fixpoint fm_insert (k : str) (v : value) (m : list (str * value)) : list (str * value) :=
+  match m with
+  | [] => [(k, v)]
+  | (k', v') :: r => if str_ltb k k' then (k, v) :: m
+                     else if str_eqb k k' then (k, v) :: r
+                     else (k', v') :: fm_insert k v r
+  end.
+
+Definition fm_canon (m : list (str * value)) : list (str * value) :=
+  fold_left (fun acc kv => fm_insert (fst kv) (snd kv) acc) m [].
+
+Fixpoint fm_get (k : str) (m : list (str * value)) : option value :=
+  match m with [] => None | (k', v) :: r => if str_eqb k k' then Some v else fm_get k r end.
+
+(* put: a new key only *)
+Definition fm_put (m : list (str * value)) (k : str) (v : value) : res (list (str * value)) :=
+  match fm_get k m with Some _ => Err None | None => Ok (fm_insert k v m) end.
+
+(* merge: disjoint key sets only *)
+Definition fm_merge (a b : list (str * value)) : res (list (str * value)) :=
+  if existsb (fun kv => match fm_get (fst kv) a with Some _ => true | None => false end) b then Err None
+  else Ok (fold_left (fun acc kv => fm_insert (fst kv) (snd kv) acc) b a).
+
+(* replace: the values of keys the map HAS are taken from the replacement; nothing is added *)
+Definition fm_replace (m rep : list (str * value)) : list (str * value) :=
+  map (fun kv => (fst kv, match fm_get (fst kv) rep with Some x => x | None => snd kv end)) m.
